@@ -1462,14 +1462,10 @@ unsigned char* SZ_compress_customize(const char* cmprName, void* userPara, int d
 unsigned char* SZ_compress_customize_threadsafe(const char* cmprName, void* userPara, int dataType, void* data, size_t r5, size_t r4, size_t r3, size_t r2, size_t r1, size_t *outSize, int *status)
 {
 	unsigned char* result = NULL;
-	//correct dimension if needed, as SZ_compress_args and the decompression side do
+	//correct dimension if needed for the SZ kernels, as SZ_compress_args and the decompression side do
+	//(SZ_Transpose and ExaFEL work on the caller's tuple, as SZ_decompress_customize does)
 	size_t _r[5];
 	filterDimension(r5, r4, r3, r2, r1, _r);
-	r5 = _r[4];
-	r4 = _r[3];
-	r3 = _r[2];
-	r2 = _r[1];
-	r1 = _r[0];
 
 	if(strcmp(cmprName, "SZ2.0")==0 || strcmp(cmprName, "SZ2.1")==0 || strcmp(cmprName, "SZ")==0)
 	{
@@ -1477,12 +1473,12 @@ unsigned char* SZ_compress_customize_threadsafe(const char* cmprName, void* user
 
 		if(dataType==SZ_FLOAT)
 		{
-			SZ_compress_args_float(-1, SZ_WITH_LINEAR_REGRESSION, &result, (float *)data, r5, r4, r3, r2, r1,
+			SZ_compress_args_float(-1, SZ_WITH_LINEAR_REGRESSION, &result, (float *)data, _r[4], _r[3], _r[2], _r[1], _r[0],
 			outSize, para->errorBoundMode, para->absErrBound, para->relBoundRatio, para->pw_relBoundRatio);
 		}
 		else if(dataType==SZ_DOUBLE)
 		{
-			SZ_compress_args_double(-1, SZ_WITH_LINEAR_REGRESSION, &result, (double *)data, r5, r4, r3, r2, r1,
+			SZ_compress_args_double(-1, SZ_WITH_LINEAR_REGRESSION, &result, (double *)data, _r[4], _r[3], _r[2], _r[1], _r[0],
 			outSize, para->errorBoundMode, para->absErrBound, para->relBoundRatio, para->pw_relBoundRatio);
 		}
 
@@ -1495,12 +1491,12 @@ unsigned char* SZ_compress_customize_threadsafe(const char* cmprName, void* user
 
 		if(dataType==SZ_FLOAT)
 		{
-			SZ_compress_args_float(-1, SZ_NO_REGRESSION, &result, (float *)data, r5, r4, r3, r2, r1,
+			SZ_compress_args_float(-1, SZ_NO_REGRESSION, &result, (float *)data, _r[4], _r[3], _r[2], _r[1], _r[0],
 			outSize, para->errorBoundMode, para->absErrBound, para->relBoundRatio, para->pw_relBoundRatio);
 		}
 		else if(dataType==SZ_DOUBLE)
 		{
-			SZ_compress_args_double(-1, SZ_NO_REGRESSION, &result, (double *)data, r5, r4, r3, r2, r1,
+			SZ_compress_args_double(-1, SZ_NO_REGRESSION, &result, (double *)data, _r[4], _r[3], _r[2], _r[1], _r[0],
 			outSize, para->errorBoundMode, para->absErrBound, para->relBoundRatio, para->pw_relBoundRatio);
 		}
 
